@@ -20,7 +20,7 @@ Open Scope nat_scope.
 
 Inductive skind :=
 | SMemento (explicit : option nat)      (* memento function; Some v = pinned version *)
-| SPlain (in_scope : bool)              (* plain function, inside the package scope or not *)
+| SPlain (in_scope : bool)              (* plain function; in scope = of the package of the memento function it is reached from *)
 | SVar (value : option nat)             (* module variable; None = a type memento cannot hash *)
 | SUndef.                               (* a name that resolves to nothing (yet) *)
 
